@@ -1,8 +1,9 @@
 import MosnVerif.Drive.Util
 import MosnVerif.Model.Subset
 import MosnVerif.Model.SubsetRequest
+import MosnVerif.Model.SubsetSlice
 namespace MosnVerif.Drive.C15
-open MosnVerif.Drive MosnVerif.Model.Subset MosnVerif.Model.SubsetRequest
+open MosnVerif.Drive MosnVerif.Model.Subset MosnVerif.Model.SubsetRequest MosnVerif.Model.SubsetSlice
 
 def parsePairs (s : String) : Option Path :=
   if s == "-" then some [] else
@@ -25,6 +26,10 @@ def parseQuery (s : String) : Option Query :=
   else if s == "nilcrit" then some .nilCrit
   else if s.startsWith "c:" then (parsePairs (s.drop 2).toString).map .crit
   else none
+
+/-! The pre-index balancer of the model is `newPreS goGrow id`: the builder's combination prefix is a Go slice extended by
+the regenerated statements `Gen.SubsetSlice.comboExtend` under Go's doubling capacity policy (`Model/SubsetSlice.lean`);
+the map iteration order is fixed to `id` (with a fresh extension the result does not depend on it). -/
 
 def names (l : List Host) : String :=
   let ns := sortStrings (dedup (l.map (·.name)))
@@ -134,7 +139,7 @@ def runPx (mode pol dflt sels hosts route reqs obs : String) : String :=
     if (mode != "F" && mode != "P") || (routeKind != "r:" && routeKind != "w:") then "E E bad-case" else
     let raw := parseSelectors sels
     let keys := generateSubsetKeys raw
-    let lb := if mode == "F" then newFilter hs policy d keys else newPre id hs policy d keys
+    let lb := if mode == "F" then newFilter hs policy d keys else newPreS goGrow id hs policy d keys
     -- the model's route object, as base_rule.go creates it (the weighted variant carries a decoy on the route itself)
     let routeObj := if routeKind == "w:" then ruleCriteria 1 (some (weightedObject rmd)) (routeObject [("zz", "decoy")])
       else ruleCriteria 0 none (routeObject rmd)
@@ -159,7 +164,7 @@ def runTrie (pol dflt sels hosts : String) (fi pi : String) : String :=
     let raw := parseSelectors sels
     let keys := generateSubsetKeys raw
     let mf := dumpLB (newFilter hs policy d keys)
-    let mp := dumpLB (newPre id hs policy d keys)
+    let mp := dumpLB (newPreS goGrow id hs policy d keys)
     let e := expectTrie hs raw policy d
     let agree := fObs == mf && pObs == mp
     let spec := fObs == e && pObs == e
@@ -176,7 +181,7 @@ def run (caseToks impl : List String) : String :=
       let raw := parseSelectors sels
       let keys := generateSubsetKeys raw
       let mf := observe (newFilter hs policy d keys) hs.length q
-      let mp := observe (newPre id hs policy d keys) hs.length q
+      let mp := observe (newPreS goGrow id hs policy d keys) hs.length q
       let innerKind := kind.startsWith "in."
       -- criteria produced by the real router code (kinds q / in.*) must be what the model's `mkCriteria` builds
       let critOk := match q with
